@@ -9,7 +9,7 @@ MODES_W = [NOQ, {"m": "SRQ", "a": "a8a", "w": "w8c"}, {"m": "SRQ", "a": "a16", "
            {"m": "WO", "a": "-", "w": "w8ca"}, {"m": "WO", "a": "-", "w": "w4c"}, {"m": "F16", "a": "-", "w": "-"}]
 MODES_A = [NOQ, {"m": "SRQ", "a": "a8a", "w": "w8c"}, {"m": "SRQ", "a": "a16", "w": "w8c"}, {"m": "SRQ", "a": "a8s", "w": "w8c"}]
 IOMODES = [NOQ, {"m": "SRQ", "a": "a8a", "w": "w8c"}, {"m": "SRQ", "a": "a16", "w": "w8c"}]
-WEIGHT_KINDS = ("FC", "TCONV", "BMM", "EMB")
+WEIGHT_KINDS = ("FC", "TCONV", "BMM", "BMMC", "EMB")
 ALL_KINDS = list(synth.KIND_SIG)
 
 
@@ -17,7 +17,7 @@ def kind_modes(k, uniform=None):
   if k in ("UNSUP", "UNSUP2"):
     return [NOQ]
   if k in WEIGHT_KINDS:
-    ms = [m for m in MODES_W if not (k == "EMB" and m["m"] == "SRQ") and not (k == "BMM" and m["m"] == "F16")]
+    ms = [m for m in MODES_W if not (k == "EMB" and m["m"] == "SRQ") and not (k in ("BMM", "BMMC") and m["m"] == "F16")]
     # 4-bit weights: policy allows them for FC/conv (srq), FC/EMB (drq), BMM/FC/EMB (wo); keep to the 8-bit ones elsewhere
     if k not in ("FC", "EMB"):
       ms = [m for m in ms if not m["w"].startswith("w4")]
